@@ -259,8 +259,13 @@ REPLAY_SRC = os.path.join(VERIF, "replay", "fields.cpp")
 REPLAY_BIN = os.path.join(VERIF, "build", "replay_fields")
 
 
+_built = set()
+
+
 def replay_bin():
-    if not os.path.exists(REPLAY_BIN) or os.path.getmtime(REPLAY_BIN) < os.path.getmtime(REPLAY_SRC):
+    """rebuilt from /repo's current headers once per check run"""
+    if REPLAY_BIN not in _built:
+        _built.add(REPLAY_BIN)
         os.makedirs(os.path.dirname(REPLAY_BIN), exist_ok=True)
         inc = ["-I/repo/src/Persistence_matrix/include", "-I/repo/src/Persistent_cohomology/include",
                "-I/repo/src/common/include"]
